@@ -32,13 +32,19 @@ where
   fn set_ref_count(&self) {
     {
       let subscription = Arc::clone(&self.subscription);
+      let subject = self.subject.emitter();
       self.subject.set_on_unsubscribe(move |count| {
         if count == 0 {
           // take a live connection out: the next first subscriber must connect
-          // again (a source that has terminated is never subscribed again)
+          // again (a source that has terminated is never subscribed again).
+          // `count` was taken when this subscriber was removed; another one may
+          // have arrived since and found the connection still in place, so the
+          // decision is made again under the connection lock
           let sbsc = {
             let mut slot = subscription.write().unwrap();
-            if slot.as_ref().map_or(false, |s| s.is_subscribed()) {
+            if subject.observer_count() == 0
+              && slot.as_ref().map_or(false, |s| s.is_subscribed())
+            {
               slot.take()
             } else {
               None
